@@ -378,6 +378,26 @@ func registerCodecModels(e *Engine) {
 		src := x.readerContent(fr, a[0])
 		return nativeIface("flater", &streamObj{content: src, kind: "flater"})
 	}
+	// zlib / gzip framing around a DEFLATE stream: the header is checked when the reader is made
+	for _, z := range []struct{ pkg, uf string }{{"compress/zlib", "zlibwrap"}, {"compress/gzip", "gzipwrap"}} {
+		z := z
+		m[z.pkg+".NewReader"] = func(x *Exec, fr *frame, a []Value) Value {
+			src := x.shape(x.readerContent(fr, a[0]))
+			switch {
+			case src.Op == "uf" && src.S == z.uf:
+				return TupleV{nativeIface("flater", &streamObj{content: UF("deflate", src.Args[0]), kind: "flater"}), NilIface}
+			case src.IsConst() || src.Op == "uf" || x.attr(src, "undecodable"):
+				return TupleV{NilIface, x.errorC(z.pkg + ": invalid header")}
+			}
+			if _, ok := x.tokenOf(src); ok {
+				return TupleV{NilIface, x.errorC(z.pkg + ": invalid header")}
+			}
+			if !x.Branch(UFSort(z.uf+".ok", SBool, src)) {
+				return TupleV{NilIface, x.errorC(z.pkg + ": invalid header")}
+			}
+			return TupleV{nativeIface("flater", &streamObj{content: UF(z.uf+".body", src), kind: "flater"}), NilIface}
+		}
+	}
 	e.NativeMeth["flater.Close"] = func(x *Exec, fr *frame, a []Value) Value { return NilIface }
 	e.NativeMeth["reader.Close"] = func(x *Exec, fr *frame, a []Value) Value { return NilIface }
 	e.NativeMeth["bodyreader.Close"] = func(x *Exec, fr *frame, a []Value) Value { return NilIface }
@@ -663,7 +683,15 @@ func (x *Exec) readAllFrom(fr *frame, r Value) (*Term, Value) {
 				if s.kind == "maxbytes" {
 					return nil, x.errorC("http: request body too large")
 				}
-				// the first limit bytes: a prefix of known length (not a complete document)
+				// the first limit bytes. When the content starts with a complete document
+				// that fits, the prefix is that document followed by a cut tail (the XML
+				// decoder stops after the root element) ...
+				if doc, docLen, ok := x.leadingDocument(data); ok && x.Branch(Le(docLen, s.limit)) {
+					tail := x.fresh("cuttail", SStr)
+					x.knownLen[tail.S] = Sub(s.limit, docLen)
+					return Concat(doc, tail), nil
+				}
+				// ... otherwise a prefix of known length that is not a complete document
 				tr := x.fresh("truncated", SStr)
 				x.knownLen[tr.S] = s.limit
 				x.setAttr(tr, "undecodable")
@@ -686,11 +714,35 @@ func (x *Exec) readAllFrom(fr *frame, r Value) (*Term, Value) {
 	panic(abortf("read from %T (no stream contract)", r))
 }
 
+// leadingDocument: data begins with one complete serialised document (optionally
+// after the XML header) and goes on with other bytes.
+func (x *Exec) leadingDocument(data *Term) (doc *Term, docLen *Term, ok bool) {
+	ps := flatten(data)
+	i := 0
+	if len(ps) > 0 && ps[0].IsConst() && ps[0].S == xmlHeader {
+		i = 1
+	}
+	if i >= len(ps) || ps[i].Op != "sym" {
+		return nil, nil, false
+	}
+	if tk, isTok := x.xmlTokens[ps[i].S]; !isTok || tk.Kind != "xml" {
+		return nil, nil, false
+	}
+	if i+1 >= len(ps) {
+		return nil, nil, false // nothing follows: tokenOf handles it
+	}
+	doc = Concat(ps[:i+1]...)
+	return doc, x.lenOf(doc), true
+}
+
 // inflate is the DEFLATE decoder contract.
 func (x *Exec) inflate(src *Term) (*Term, Value) {
 	src = x.shape(src)
 	if src.Op == "uf" && src.S == "deflate" {
 		return src.Args[0], nil
+	}
+	if src.Op == "uf" && (src.S == "zlibwrap" || src.S == "gzipwrap") {
+		return nil, x.errorC("flate: corrupt input") // a zlib / gzip header is not a valid DEFLATE block header
 	}
 	if src.IsConst() || x.attr(src, "undecodable") {
 		if _, ok := x.tokenOf(src); !ok && src.IsConst() && src.S != "" {
@@ -722,6 +774,13 @@ func (x *Exec) xmlDecode(data *Term, target Value) Value {
 		return x.errorC("xml: non-pointer passed to Unmarshal")
 	}
 	et := iv.T.Underlying().(*types.Pointer).Elem()
+	if tok, ok := x.tokenOf(data); !ok {
+		// contract: Unmarshal reads the first element and ignores what follows it
+		if doc, _, ok2 := x.leadingDocument(data); ok2 {
+			data = doc
+		}
+		_ = tok
+	}
 	if tok, ok := x.tokenOf(data); ok && tok.Kind == "xml" {
 		tt := tok.Typ
 		if pt, ok := tt.Underlying().(*types.Pointer); ok {
